@@ -529,7 +529,8 @@ impl<'de, R: Read<'de>> Parser<R> {
                 self.eat_char();
                 let next = self.peek_or_null()?;
                 if next == 0 || is_delimiter(next) || is_sign_subsequent(next) || next > 127 {
-                    Token::Symbol(self.parse_symbol_suffix("-")?.into())
+                    let name = self.parse_symbol_suffix("-")?;
+                    self.symbol_or_postfix_keyword(name)
                 } else if next == b'.' {
                     self.parse_sign_dot_symbol("-")?
                 } else {
@@ -540,7 +541,8 @@ impl<'de, R: Read<'de>> Parser<R> {
                 self.eat_char();
                 let next = self.peek_or_null()?;
                 if next == 0 || is_delimiter(next) || is_sign_subsequent(next) || next > 127 {
-                    Token::Symbol(self.parse_symbol_suffix("+")?.into())
+                    let name = self.parse_symbol_suffix("+")?;
+                    self.symbol_or_postfix_keyword(name)
                 } else if next == b'.' {
                     self.parse_sign_dot_symbol("+")?
                 } else {
@@ -553,7 +555,7 @@ impl<'de, R: Read<'de>> Parser<R> {
                     let mut num_parser = Parser::from_slice_custom(symbol.as_bytes(), self.options);
                     match num_parser.parse_num_literal(10, true) {
                         Ok(token) => Token::Number(token),
-                        Err(_) => Token::Symbol(symbol.into()),
+                        Err(_) => self.symbol_or_postfix_keyword(symbol),
                     }
                 } else {
                     Token::Number(self.parse_num_literal(10, true)?)
@@ -595,15 +597,13 @@ impl<'de, R: Read<'de>> Parser<R> {
                     self.eat_char();
                     Token::Keyword(self.parse_symbol()?.into())
                 } else {
-                    Token::Symbol(self.parse_symbol()?.into())
+                    let name = self.parse_symbol()?;
+                    self.symbol_or_postfix_keyword(name)
                 }
             }
             b'a'..=b'z' | b'A'..=b'Z' => {
-                let mut name = self.parse_symbol()?;
-                if self.options.keyword_syntax(KeywordSyntax::ColonPostfix) && name.ends_with(':') {
-                    name.pop();
-                    Token::Keyword(name.into())
-                } else if self.options.nil_symbol() != NilSymbol::Default && name == "nil" {
+                let name = self.parse_symbol()?;
+                if self.options.nil_symbol() != NilSymbol::Default && name == "nil" {
                     match self.options.nil_symbol() {
                         NilSymbol::EmptyList => Token::Null,
                         NilSymbol::Special => Token::Nil,
@@ -615,7 +615,7 @@ impl<'de, R: Read<'de>> Parser<R> {
                         TSymbol::Default => unreachable!(),
                     }
                 } else {
-                    Token::Symbol(name.into())
+                    self.symbol_or_postfix_keyword(name)
                 }
             }
             b'?' if self.options.char_syntax == CharSyntax::Elisp => {
@@ -646,11 +646,13 @@ impl<'de, R: Read<'de>> Parser<R> {
                 if !c.is_alphabetic() {
                     return Err(self.peek_error(ErrorCode::ExpectedSomeValue));
                 }
-                Token::Symbol(self.parse_symbol_scratch_suffix()?.into())
+                let name = self.parse_symbol_scratch_suffix()?;
+                self.symbol_or_postfix_keyword(name)
             }
             _ => {
                 if SYMBOL_EXTENDED.contains(&peek) {
-                    Token::Symbol(self.parse_symbol()?.into())
+                    let name = self.parse_symbol()?;
+                    self.symbol_or_postfix_keyword(name)
                 } else {
                     return Err(self.peek_error(ErrorCode::ExpectedSomeValue));
                 }
@@ -833,7 +835,30 @@ impl<'de, R: Read<'de>> Parser<R> {
         if name.as_bytes().get(2).map_or(false, u8::is_ascii_digit) {
             return Err(self.error(ErrorCode::InvalidNumber));
         }
-        Ok(Token::Symbol(name.into()))
+        Ok(self.symbol_or_postfix_keyword(name))
+    }
+
+    /// Turns a symbol name into a keyword token if it ends with a colon and
+    /// the postfix keyword syntax is enabled, and into a symbol token
+    /// otherwise.
+    fn symbol_or_postfix_keyword(&self, mut name: String) -> Token {
+        if self.options.keyword_syntax(KeywordSyntax::ColonPostfix)
+            && name.len() > 1
+            && name.ends_with(':')
+        {
+            name.pop();
+            Token::Keyword(name.into())
+        } else {
+            Token::Symbol(name.into())
+        }
+    }
+
+    fn symbol_or_postfix_keyword_value(&self, name: String) -> Value {
+        match self.symbol_or_postfix_keyword(name) {
+            Token::Keyword(name) => Value::Keyword(name),
+            Token::Symbol(name) => Value::Symbol(name),
+            _ => unreachable!(),
+        }
     }
 
     fn parse_symbol_scratch_suffix(&mut self) -> Result<String> {
@@ -923,7 +948,8 @@ impl<'de, R: Read<'de>> Parser<R> {
                                 pair.set_cdr(Value::from((Value::Nil, Value::Null)));
                                 pair = pair.cdr_mut().as_cons_mut().unwrap();
                             }
-                            pair.set_car(Value::symbol(self.parse_symbol_suffix(".")?));
+                            let name = self.parse_symbol_suffix(".")?;
+                            pair.set_car(self.symbol_or_postfix_keyword_value(name));
                             have_value = true;
                         }
                     }
@@ -988,7 +1014,8 @@ impl<'de, R: Read<'de>> Parser<R> {
                                 pair = pair.cdr_mut().as_cons_mut().unwrap();
                                 meta = meta[1].cons_mut().unwrap();
                             }
-                            pair.set_car(Value::symbol(self.parse_symbol_suffix(".")?));
+                            let name = self.parse_symbol_suffix(".")?;
+                            pair.set_car(self.symbol_or_postfix_keyword_value(name));
                             meta[0] = SpanInfo::Prim(Span::new(start, self.read.position()));
                             have_value = true;
                         }
